@@ -206,4 +206,64 @@ pub(crate) mod verif_proofs {
     }
     k_valid_state_n!(k_valid_state_1, 1);
     k_valid_state_n!(k_valid_state_2, 2);
+
+    /// [C12.prob] an accepted transition probability is a real number in (0, 1] and the per-event
+    /// sum is at most 1.  Everything but the probabilities is concrete (event slot 0, targets 0 and 1,
+    /// two states, fixed SipHash keys) so that the real HashSet code runs on constants.
+    #[kani::proof]
+    #[kani::unwind(20)]
+    #[kani::stub(alloc::fmt::format, stub_format)]
+    #[kani::stub(std::collections::hash_map::RandomState::new, fixed_random_state)]
+    pub(crate) fn k_valid_state_prob() {
+        let p1: f32 = kani::any();
+        let p2: f32 = kani::any();
+        let two: bool = kani::any();
+        let list = if two { vec![Trans(0, p1), Trans(1, p2)] } else { vec![Trans(0, p1)] };
+        let s = mk_state(None, 0, Some(list));
+        let r = s.validate(2);
+        if r.is_ok() {
+            assert!(!p1.is_nan() && p1 > 0.0 && p1 <= 1.0, "[C12.prob]");
+            if two {
+                assert!(!p2.is_nan() && p2 > 0.0 && p2 <= 1.0, "[C12.prob]");
+                assert!(p1 + p2 <= 1.0, "[C12.sum]");
+            }
+        }
+        kani::cover!(r.is_ok() && two, "two transitions accepted");
+        kani::cover!(r.is_ok() && !two, "one transition accepted");
+        std::mem::forget(r);
+        std::mem::forget(s);
+    }
+
+    /// [C12.parts] a state is accepted only if the distributions of its action and of BOTH counters
+    /// are valid (state without transitions, so the transition loop is trivial)
+    #[kani::proof]
+    #[kani::unwind(16)]
+    #[kani::stub(alloc::fmt::format, stub_format)]
+    pub(crate) fn k_valid_state_parts() {
+        use crate::dist::verif_proofs::{any_supported_dist, dist_params_valid};
+        let mut s = mk_state(None, 0, None);
+        let da = any_supported_dist();
+        let db = any_supported_dist();
+        let dc = any_supported_dist();
+        let op = crate::counter::Operation::Increment;
+        let has_action: bool = kani::any();
+        let has_a: bool = kani::any();
+        let has_b: bool = kani::any();
+        if has_action {
+            s.action = Some(Action::UpdateTimer { replace: kani::any(), duration: dc, limit: None });
+        }
+        s.counter = (
+            if has_a { Some(Counter { operation: op, dist: Some(da), copy: kani::any() }) } else { None },
+            if has_b { Some(Counter { operation: op, dist: Some(db), copy: kani::any() }) } else { None },
+        );
+        let r = s.validate(1);
+        if r.is_ok() {
+            assert!(!has_action || dist_params_valid(&dc), "[C12.parts] action distribution");
+            assert!(!has_a || dist_params_valid(&da), "[C12.parts] counter A distribution");
+            assert!(!has_b || dist_params_valid(&db), "[C12.parts] counter B distribution");
+        }
+        kani::cover!(r.is_ok() && has_a && has_b, "accepted with both counters");
+        std::mem::forget(r);
+        std::mem::forget(s);
+    }
 }
